@@ -275,6 +275,11 @@ func init() {
 		case 9: // slow store: latencies around the time-out
 			p.Faults = append(p.Faults, Fault{Kind: FSlow, Inst: 0, Op: "update", From: t0, Arg: r.Dur(T/2, 2*T)})
 		}
+		// the record is lost and, from that moment, every read of the instance hangs or is slow:
+		// whatever the instance reads on its way to the demotion must not hold the demotion up
+		if kind >= 5 && kind <= 8 && r.Bool(0.3) {
+			p.Faults = append(p.Faults, Fault{Kind: Pick(r, []string{FHang, FSlow}), Inst: 0, Op: "get", From: t0, Arg: r.Dur(T, 3*T)})
+		}
 		// a share of the plans speaks natsmock's error texts ("revision mismatch", "key not found"),
 		// which take the heartbeat through its other classification branch
 		if r.Bool(0.15) {
